@@ -90,7 +90,7 @@ func ReflectChild(obj interface{}) node.Node {
 }
 
 func ReflectList(obj interface{}) node.Node {
-	return Reflect{}.list(reflect.ValueOf(obj), nil)
+	return Reflect{}.list(reflect.ValueOf(obj), nil, nil)
 }
 
 func (self Reflect) isEmpty(v reflect.Value) bool {
@@ -160,22 +160,32 @@ func (self Reflect) ReflectList(v reflect.Value, onUpdate OnListValueChange) nod
 	case reflect.Interface:
 		switch v.Elem().Kind() {
 		case reflect.Slice:
-			return self.listSlice(v.Elem(), onUpdate)
+			return self.listSlice(v.Elem(), onUpdate, nil)
 		case reflect.Map:
 			return self.listMap(v.Elem())
 		}
 	case reflect.Slice:
-		return self.listSlice(v, onUpdate)
+		return self.listSlice(v, onUpdate, nil)
 	}
 	panic("unsupported type for listing " + v.String())
 }
 
-func (self Reflect) list(v reflect.Value, onUpdate OnListValueChange) node.Node {
+// current reads the list again from the container that owns it: another selection on the
+// same list may have added or removed items since this node was made
+func (self Reflect) list(v reflect.Value, onUpdate OnListValueChange, current func() reflect.Value) node.Node {
 	if self.isEmpty(v) {
 		return nil
 	}
 	if self.OnList != nil {
 		return self.OnList(self, v)
+	}
+	switch v.Kind() {
+	case reflect.Interface:
+		if v.Elem().Kind() == reflect.Slice {
+			return self.listSlice(v.Elem(), onUpdate, current)
+		}
+	case reflect.Slice:
+		return self.listSlice(v, onUpdate, current)
 	}
 	return self.ReflectList(v, onUpdate)
 }
@@ -247,11 +257,22 @@ func (self Reflect) buildKey(n node.Node, keyMeta []meta.Leafable) ([]val.Value,
 	return key, nil
 }
 
-func (self Reflect) listSlice(v reflect.Value, onChange OnListValueChange) node.Node {
+func (self Reflect) listSlice(v reflect.Value, onChange OnListValueChange, current func() reflect.Value) node.Node {
 	var entries sliceSorter
 	e := v.Type().Elem()
 	return &Basic{
 		OnNext: func(r node.ListRequest) (node.Node, []val.Value, error) {
+			if current != nil {
+				now := current()
+				for now.IsValid() && now.Kind() == reflect.Interface && !now.IsNil() {
+					now = now.Elem()
+				}
+				if now.IsValid() && now.Kind() == reflect.Slice && now.Type() == v.Type() &&
+					(now.Len() != v.Len() || now.Pointer() != v.Pointer()) {
+					v = now
+					entries = nil
+				}
+			}
 			key := r.Key
 			if r.New {
 				item := self.create(e, nil)
@@ -264,14 +285,38 @@ func (self Reflect) listSlice(v reflect.Value, onChange OnListValueChange) node.
 				appendedItem := v.Index(v.Len() - 1)
 				return self.child(appendedItem), key, nil
 			} else if key != nil {
+				fresh := false
 				if entries == nil {
 					var err error
 					entries, err = self.buildKeys(r.Selection, r.Meta.KeyMeta(), v)
 					if err != nil {
 						return nil, nil, err
 					}
+					fresh = true
 				}
-				if found, i := entries.find(key); found != nil {
+				found, i := entries.find(key)
+				if !fresh {
+					// the index may predate changes made through another selection on this list:
+					// believe a hit only if that row still holds the key, and a miss only from a new index
+					stillThere := false
+					if found != nil && i < v.Len() {
+						if now, err := self.buildKey(self.child(v.Index(i)), r.Meta.KeyMeta()); err == nil {
+							stillThere = val.EqualVals(now, key)
+						}
+					}
+					if !stillThere {
+						var err error
+						entries, err = self.buildKeys(r.Selection, r.Meta.KeyMeta(), v)
+						if err != nil {
+							return nil, nil, err
+						}
+						found, i = entries.find(key)
+					} else {
+						// rows are addressed through the slice as it is now
+						found = self.child(v.Index(i))
+					}
+				}
+				if found != nil {
 					if r.Delete {
 						part1 := v.Slice(0, i)
 						part2 := v.Slice(i+1, v.Len())
@@ -401,7 +446,10 @@ func (self Reflect) childMap(v reflect.Value) node.Node {
 				onUpdate := func(update reflect.Value) {
 					v.SetMapIndex(mapKey, update)
 				}
-				return self.list(childInstance, onUpdate), nil
+				current := func() reflect.Value {
+					return v.MapIndex(mapKey)
+				}
+				return self.list(childInstance, onUpdate, current), nil
 			}
 			return self.child(childInstance), nil
 		},
@@ -486,7 +534,10 @@ func (self Reflect) strukt(ptrVal reflect.Value) node.Node {
 				onUpdate := func(update reflect.Value) {
 					childVal.Set(update)
 				}
-				return self.list(childVal, onUpdate), nil
+				current := func() reflect.Value {
+					return elemVal.FieldByName(fieldName)
+				}
+				return self.list(childVal, onUpdate, current), nil
 			}
 			return self.child(childVal), nil
 		},
